@@ -601,3 +601,36 @@ pub fn c03_images(ctx: &Ctx, out: &mut RunOut) -> Result<(), Violation> {
     out.sample = format!("{} objects, xref {}, {} incremental appends, final image {} bytes", m.objects.len(), if m.xref_stream { "stream" } else { "table" }, n_inc, prev.len());
     Ok(())
 }
+
+
+/// C01, plain (non-simulated) sweep: all 65 536 byte pairs as literal-string,
+/// hex-string, name and dictionary-key content. One run covers the 256 pairs
+/// that start with a drawn first byte.
+pub fn c01_bytepairs(ctx: &Ctx, out: &mut RunOut) -> Result<(), Violation> {
+    let b = ctx.draw(W, 256, "pair-first-byte") as u8;
+    let mut m = MDoc::empty();
+    m.xref_stream = ctx.chance(W, 1, 2, "xref-stream");
+    for x in 0..=255u8 {
+        let pair = vec![b, x];
+        let d = vec![
+            (pair.clone(), MObj::Str(pair.clone(), false)),
+            (b"N".to_vec(), MObj::Name(pair.clone())),
+            (b"H".to_vec(), MObj::Str(pair.clone(), true)),
+            (b"A".to_vec(), MObj::Array(vec![MObj::Str(pair.clone(), false), MObj::Name(pair.clone()), MObj::Str(vec![x, b], false)])),
+        ];
+        // a key equal to one of the fixed keys would collapse: skip those two pairs' own key
+        let d: Vec<(Vec<u8>, MObj)> = if pair == b"N".to_vec() || pair == b"H".to_vec() || pair == b"A".to_vec() { d.into_iter().skip(1).collect() } else { d };
+        m.objects.insert((x as u32 + 1, 0), MObj::Dict(d));
+    }
+    m.max_id = 256;
+    let mut d = sim::to_doc(&m);
+    let mut img = Vec::new();
+    guarded("save_to", || d.save_to(&mut img))?.map_err(|e| Violation::new("healthy-save-failed", format!("{e}")))?;
+    crate::c03::check_image(ctx, &img, &m, None)?;
+    let d2 = guarded("load_mem", || sim::load_mem(&img))?.map_err(|e| Violation::new("load-failed", format!("first byte {b:#04x}: {e}")))?;
+    pdfmodel::same_doc(&m, &sim::from_doc(&d2), &|_, o| pdfmodel::is_xref_stream_obj(o)).map_err(|(c, e)| Violation::new(c, format!("byte pairs starting with {b:#04x}: {e}")))?;
+    out.case_hash = b as u64 + 1;
+    out.nontrivial = true;
+    out.sample = format!("all 256 byte pairs starting with {b:#04x} as literal string, hex string, name and dictionary key");
+    Ok(())
+}
